@@ -42,7 +42,7 @@ FAULT_KINDS = ['key_arg', 'key_resolver', 'in_handler', 'out_handler', 'unser_va
 def _can_fire(fault, op):
     kind = sc.KINDS[op // 2]
     if fault == 'key_arg':
-        return kind in ('A', 'B', 'S', 'R', 'C', 'D', 'H')
+        return kind in ('A', 'B', 'S', 'R', 'C', 'D', 'H', 'M')
     if fault == 'key_resolver':
         return kind == 'R'
     if fault == 'in_handler':
